@@ -164,6 +164,10 @@ def judge(case, run, res, out: Outcome, inject):
                         out.violate("details", f"C08.details/cancelled-body-without-cancel-details/{tag}", f"disposable {j} got {c['et']} {c['exc']!r}; inject={inject}")
         for e in ev("d_exit_raise", j):
             exit_errors.append(e["exc"])
+        if inject is None and ev("d_exit_cancelled", j):
+            # nobody cancelled anything in this run: a cleanup that is still running may not be interrupted because ANOTHER
+            # disposable's cleanup failed ("exited ... whichever other disposables fail"); what it would have reported is lost
+            out.violate("exit", f"C08.exit/cleanup-interrupted-by-another-disposables-failure/{tag}", f"disposable {j}: its __aexit__ received a CancelledError while suspended")
     # (5) yielded state visible in the body
     if body_start:
         probe = [e for e in log if e["ev"] == "probe" and tuple(e["path"])[: len(path)] == path]
